@@ -15,7 +15,7 @@
 (* A trace is accepted iff some interleaving of silent steps reproduces every snapshot.               *)
 (* Compared per snapshot: root state and result exactly; for descendants only whether the node is     *)
 (* running / paused / at rest; leaf starts as a sequence (documented start order), all other events    *)
-(* as a multiset.                                                                                      *)
+(* except the leaves' reset hooks as a multiset.                                                                                      *)
 EXTENDS ActionTree, Json, IOUtils
 CONSTANTS MaxSilent,   \* bound on silent steps between two snapshots
           MaxAge       \* a queued notification is delivered before it has waited MaxAge ticks (the code: 1)
@@ -27,6 +27,9 @@ tvars == <<vars, l, sil, open>>
 Ev == Log[l]
 IsEv(e) == l <= Len(Log) /\ Log[l].e = e /\ l' = l + 1
 
+\* "reset" hooks of probe leaves are recorded but not compared: the statement does not fix WHEN a composite resets a child
+\* that is at rest (at once, or lazily just before it restarts it); a missing reset shows as a refused / missing start.
+Obs(sq) == SelectSeq(sq, LAMBDA x : x[1] # "reset")
 Starts(sq) == SelectSeq(sq, LAMBDA x : x[1] = "start")
 Cnt(sq, x) == Cardinality({i \in DOMAIN sq : sq[i] = x})
 IsPrefix(a, b) == Len(a) <= Len(b) /\ \A i \in 1..Len(a) : a[i] = b[i]
@@ -35,11 +38,12 @@ NextSnap(i) == IF i > Len(Log) THEN 0 ELSE IF Log[i].e = "Snap" THEN i ELSE IF L
 \* the model's event log can still become the event list of the next snapshot
 Compatible(lg, i) ==
   LET k == NextSnap(i) IN
-  IF k = 0 THEN lg = <<>>
-  ELSE LET ev == Log[k].ev IN
-       /\ IsPrefix(Starts(lg), Starts(ev))
-       /\ \A j \in DOMAIN lg : Cnt(lg, lg[j]) <= Cnt(ev, lg[j])
-SameEvents(lg, ev) ==
+  IF k = 0 THEN Obs(lg) = <<>>
+  ELSE LET ev == Obs(Log[k].ev) lo == Obs(lg) IN
+       /\ IsPrefix(Starts(lo), Starts(ev))
+       /\ \A j \in DOMAIN lo : Cnt(lo, lo[j]) <= Cnt(ev, lo[j])
+SameEvents(lg0, ev0) ==
+  LET lg == Obs(lg0) ev == Obs(ev0) IN
   /\ Len(lg) = Len(ev)
   /\ Starts(lg) = Starts(ev)
   /\ \A j \in DOMAIN lg : Cnt(lg, lg[j]) = Cnt(ev, lg[j])
